@@ -154,6 +154,10 @@ type Site struct {
 	NotInMethT bool // omitted in methods of T (would shadow the receiver; not judged)
 	OnlyInU    bool // rendered only in the importing package (refers to u's own same-named type T)
 	PkgLevel string // for EPkgVarDirect: the declaration form (CTOR family only)
+	Lines []string // multi-line form (instead of Stmt): the site is line Lines[At]
+	At    int
+	PkgLines []string // multi-line package-level form; the site is PkgLines[PkgAt]
+	PkgAt    int
 }
 
 // Block is one element of a history.
@@ -323,21 +327,24 @@ func preludeD(w *lineWriter, m Mix) {
 	w.add("\tMp map[string]int")
 	w.add("}")
 	w.add("")
-	w.add("// T2 is a second annotated type whose field names coincide with T's but whose")
-	w.add("// @mutable marking is the other way round; its constructor is NewT2.")
+	w.add("type (")
+	w.add("\t// T2 is a second annotated type whose field names coincide with T's but whose")
+	w.add("\t// @mutable marking is the other way round; its constructor is NewT2.")
 	if m.Imm {
-		w.add("// @immutable")
+		w.add("\t// @immutable")
 	}
 	if m.Ctor > 0 {
-		w.add("// @constructor NewT2")
+		w.add("\t// @constructor NewT2")
 	}
-	w.add("type T2 struct {")
+	w.add("\tT2 struct {")
 	if m.Mut {
-		w.add("\t// @mutable")
+		w.add("\t\t// @mutable")
 	}
-	w.add("\tF int")
-	w.add("\tM int")
-	w.add("}")
+	w.add("\t\tF int")
+	w.add("\t\tM int")
+	w.add("\t}")
+	w.add("\tU2 struct{ F int }") // no doc comment of its own: must not inherit the previous spec's
+	w.add(")")
 	w.add("")
 	w.add("// O is a plain struct holding T.")
 	w.add("type O struct {")
@@ -347,7 +354,7 @@ func preludeD(w *lineWriter, m Mix) {
 	w.add("")
 	w.add("func GetP() *T { return nil }")
 	w.add("")
-	w.add("func Env() (x T, p *T, r *T, o O, op *O, arr []T, tw P, tp *P, y int, rn *N, x2 T2) { return }")
+	w.add("func Env() (x T, p *T, r *T, o O, op *O, arr []T, tw P, tp *P, y int, rn *N, x2 T2, u2 U2) { return }")
 	w.add("")
 }
 
@@ -475,14 +482,14 @@ func Render(s *Spec) *Rendered {
 func (r *renderer) subst(stmt string) string {
 	r.ctr++
 	rep := strings.NewReplacer("{TL}", r.tLit, "{T}", r.tName, "{PT}", r.ptName, "{P}", r.pName, "{O}", r.oName, "{N}", r.nName,
-		"{GetP}", r.q+"GetP", "{Env}", r.q+"Env", "{T2}", r.q+"T2", "$v", fmt.Sprintf("v%d", r.ctr))
+		"{GetP}", r.q+"GetP", "{Env}", r.q+"Env", "{T2}", r.q+"T2", "{U2}", r.q+"U2", "$v", fmt.Sprintf("v%d", r.ctr))
 	return rep.Replace(stmt)
 }
 
 func (r *renderer) params(skip string) string {
 	all := []struct{ n, t string }{
 		{"x", r.tName}, {"p", r.ptName}, {"r", r.ptName}, {"o", r.oName}, {"op", "*" + r.oName},
-		{"arr", "[]" + r.tName}, {"tw", r.pName}, {"tp", "*" + r.pName}, {"y", "int"}, {"rn", "*" + r.nName}, {"x2", r.q + "T2"},
+		{"arr", "[]" + r.tName}, {"tw", r.pName}, {"tp", "*" + r.pName}, {"y", "int"}, {"rn", "*" + r.nName}, {"x2", r.q + "T2"}, {"u2", r.q + "U2"},
 	}
 	var parts []string
 	for _, a := range all {
@@ -512,8 +519,8 @@ func (r *renderer) block(w *lineWriter, pkgPath string, bi int, b Block) {
 		w.addf("func %s(%s) {", b.Encl.fixedName(), r.params(""))
 	case EInit:
 		w.add("func init() {")
-		w.add("\tx, p, r, o, op, arr, tw, tp, y, rn, x2 := " + r.subst("{Env}") + "()")
-		w.add("\tuse(x, p, r, o, op, arr, tw, tp, y, rn, x2)")
+		w.add("\tx, p, r, o, op, arr, tw, tp, y, rn, x2, u2 := " + r.subst("{Env}") + "()")
+		w.add("\tuse(x, p, r, o, op, arr, tw, tp, y, rn, x2, u2)")
 	case EMethTPtr:
 		w.addf("func (r *T) m%d(%s) {", bi, r.params("r"))
 	case EMethTVal:
@@ -528,13 +535,23 @@ func (r *renderer) block(w *lineWriter, pkgPath string, bi int, b Block) {
 	case EPkgVarDirect:
 		for si := range r.spec.Sites {
 			st := &r.spec.Sites[si]
-			if st.PkgLevel == "" {
+			if st.PkgLevel == "" && len(st.PkgLines) == 0 {
 				continue
 			}
 			if r.spec.Single != nil && r.spec.Single.Site != si {
 				continue
 			}
 			r.pre(w, "")
+			if len(st.PkgLines) > 0 {
+				text := strings.ReplaceAll(strings.Join(st.PkgLines, "\n"), "$g", fmt.Sprintf("G%d_$v", bi))
+				for li, l := range strings.Split(r.subst(text), "\n") {
+					ln := w.add(l)
+					if li == st.PkgAt {
+						r.record(st, bi, WNone, file, ln)
+					}
+				}
+				continue
+			}
 			ln := w.add(r.subst(strings.ReplaceAll(st.PkgLevel, "$g", fmt.Sprintf("G%d_$v", bi))))
 			r.record(st, bi, WNone, file, ln)
 		}
@@ -648,7 +665,7 @@ func (r *renderer) section(w *lineWriter, file string, bi int, wr Wrapper, ptrR,
 	}
 	for si := range r.spec.Sites {
 		st := &r.spec.Sites[si]
-		if st.Stmt == "" {
+		if st.Stmt == "" && len(st.Lines) == 0 {
 			continue
 		}
 		if r.spec.Single != nil {
@@ -668,6 +685,15 @@ func (r *renderer) section(w *lineWriter, file string, bi int, wr Wrapper, ptrR,
 			continue
 		}
 		r.pre(w, ind)
+		if len(st.Lines) > 0 {
+			for li, l := range strings.Split(r.subst(strings.Join(st.Lines, "\n")), "\n") {
+				ln := w.add(ind + l)
+				if li == st.At {
+					r.record(st, bi, wr, file, ln)
+				}
+			}
+			continue
+		}
 		ln := w.add(ind + r.subst(st.Stmt))
 		r.record(st, bi, wr, file, ln)
 	}
